@@ -163,6 +163,10 @@ pub fn cell_to_lonlat(cell: u64) -> Result<LonLat, String> {
     }
 
     let cell_data = deserialize(cell)?;
+    // Any index without a resolution marker decodes to the world cell, not only 0
+    if cell_data.resolution == -1 {
+        return Ok(LonLat::new(0.0, 0.0));
+    }
     let pentagon = get_pentagon(&cell_data)?;
     let dodecahedron = DodecahedronProjection::get_thread_local();
     let point = dodecahedron.inverse(pentagon.get_center(), cell_data.origin_id)?;
@@ -198,6 +202,10 @@ pub fn cell_to_boundary(
 
     let opts = options.unwrap_or_default();
     let cell_data = deserialize(cell_id)?;
+    // Any index without a resolution marker decodes to the world cell, not only 0
+    if cell_data.resolution == -1 {
+        return Ok(Vec::new());
+    }
 
     let segments = opts
         .segments
